@@ -20,7 +20,7 @@ KW = {"eps": "permittivity", "mu": "permeability", "se": "electric_conductivity"
 
 def model_check(ctx):
     ctx.mc("Materials", "MC_Materials_q.cfg" if ctx.quick else "MC_Materials_t.cfg", workers=4,
-           label="dictionaries of <=2 (quick) / <=3 (thorough) materials, every applicable input format of 11 permittivity tensors x permeability x conductivity")
+           label="dictionaries of <=2 (quick) / <=3 (thorough) materials; every applicable input format of 11 permittivity tensors x permeability x conductivity at the first position (thorough: first two), 9-tuples behind it; every pair of inputs compared over the whole universe")
     ctx.mc_negative("Materials", "MC_Materials_neg.cfg", workers=2)   # nested tuple flattened column-major
     ctx.mc_negative("Materials", "MC_Materials_neg2.cfg", workers=2)  # every list sorted by its own key
     if not ctx.quick:
@@ -85,7 +85,7 @@ def gen_cases(ctx):
     # B. dictionaries from the spec's universe (pairs: all in thorough, seeded sample in quick; triples sampled)
     if ctx.quick:
         ctx.exhaustive = False
-        pairs = [(rng.randrange(len(single)), rng.randrange(len(single))) for _ in range(400)]
+        pairs = [(rng.randrange(len(single)), rng.randrange(len(single))) for _ in range(250)]
     else:
         pairs = list(itertools.product(range(len(single)), repeat=2))
         rng.shuffle(pairs)
@@ -93,11 +93,11 @@ def gen_cases(ctx):
         ctx.exhaustive = False
     for n, (a, b) in enumerate(pairs):
         yield {"id": f"two{n}", "kind": "dict", "mats": [{"name": "m1", "src": single[a], "disp": 0}, {"name": "m2", "src": single[b], "disp": 0}]}
-    for n in range(200 if ctx.quick else 3000):
+    for n in range(120 if ctx.quick else 3000):
         ks = [rng.randrange(len(single)) for _ in range(3)]
         yield {"id": f"three{n}", "kind": "dict", "mats": [{"name": f"m{j + 1}", "src": single[k], "disp": rng.choice((0, 0, j + 1))} for j, k in enumerate(ks)]}
     # C. random dyadic values, 1-5 materials, shuffled names, frequent ties in the sort key, some dispersive
-    for n in range(300 if ctx.quick else 4000):
+    for n in range(200 if ctx.quick else 4000):
         k = rng.randint(1, 5)
         names = rng.sample(["air", "si", "sio2", "au", "poly", "x", "Z", "b2"], k)
         mats = []
